@@ -177,7 +177,7 @@ pub fn plan(property: &str, tier: Tier) -> Option<Plan>
         }
         "C09" =>
         {
-            let ns: &[u32] = if q { &[4] } else { &[4, 5, 6] };
+            let ns: &[u32] = if q { &[5] } else { &[4, 5, 6] };
             for &n in ns
             {
                 let mut c = core_cfg(format!("C09/plain3/L1/N{n}"), p3.clone(), &[1], n, 0, false);
@@ -527,6 +527,47 @@ pub fn plan(property: &str, tier: Tier) -> Option<Plan>
                 c.final_gc = true;
                 c.max_runs = 200;
                 items.push(item(c, "life", &format!("D={d}")));
+            }
+            // second series: triggers that share one table entry per component type (insertion / mutation / removal
+            // lists), type-wide and entity-scoped, so that revoking one reactor's trigger edits a structure that also
+            // holds other reactors' handles
+            let ds: &[u32] = if q { &[4] } else { &[4, 5] };
+            for &d in ds
+            {
+                let mut c = Config::base(&format!("{property}/life-comp/D{d}"));
+                c.actors = vec![Variant::Plain];
+                c.n_ents = 1;
+                c.setup = vec![Op::Insert(Comp::A, 0, 0)];
+                let bundles = vec![
+                    Bundle::one(Trig::Insertion(Comp::A)),
+                    Bundle::one(Trig::Mutation(Comp::A)),
+                    Bundle::one(Trig::Removal(Comp::A)),
+                    Bundle::two(Trig::EntityMutation(Comp::A, 0), Trig::Mutation(Comp::B)),
+                ];
+                c.top = Arc::new(move |i: &DynInfo| {
+                    let mut v = Vec::new();
+                    if i.n_actors < 4
+                    {
+                        for b in bundles.iter()
+                        {
+                            if is7
+                            {
+                                for m in [Mode::Cleanup, Mode::Revokable] { v.push(Op::RegisterNew(Variant::Plain, *b, m)); }
+                            }
+                            else { v.push(Op::Once(Variant::Plain, *b)); }
+                        }
+                    }
+                    for k in i.ready_tokens() { v.push(Op::Revoke(k)); }
+                    v.push(Op::Insert(Comp::A, 0, 1));
+                    v.push(Op::Mutate(Comp::A, 0, How::GetMut));
+                    v.push(Op::Gc);
+                    v
+                });
+                c.max_top = d;
+                c.budget = d;
+                c.final_gc = true;
+                c.max_runs = 200;
+                items.push(item(c, "life-comp", &format!("D={d}")));
             }
             reports = vec![if is7 { "C07" } else { "C15" }];
             rule = if is7 {
